@@ -1077,6 +1077,10 @@ def history_case(ctx, r, lines, checks, directed=None):
     ref = dict(norm(raw, vt))
     fresh = ((f'n{i}' if i % 3 else 20 + i) for i in itertools.count())
     state = {'last': 'none', 'since': [], 'nred': 0, 'ok': True}
+    tl = lambda t: '&'.join(lab(v) for v in t)   # noqa: E731
+    ptext = lambda items: ';'.join(tl(t) + '=' + rat(fr(b)) for t, b in items) or '-'   # noqa: E731
+    hist = {'base': ptext(rawf), 'ops': []}      # the object model `Red.objectAfter`: the terms it started from and the mutations since
+    igt = lambda ig: '|'.join(tl(t) for t in ig) if ig else '-'   # noqa: E731
 
     def fail(site, cls, what, check):
         state['ok'] = False
@@ -1106,12 +1110,14 @@ def history_case(ctx, r, lines, checks, directed=None):
             c = r.choice([2, -1, .5, .25, -2, 4, 1.5, -.5] + ([0] if r.random() < .15 else []))
             do(f'poly.scale({c!r})')
             for t in terms: ref[t] *= F(c)
+            hist['ops'].append(f'scale@{rat(F(c))}@-')
         elif kind == 'scale-ignored':
             ig = r.sample(terms, r.randint(0, len(terms)))
             c = r.choice([2, -1, .5, -2, 4])
             do(f'poly.scale({c!r}, ignored_terms=[{", ".join(spell(t) for t in ig)}])')
             for t in terms:
                 if t not in ig: ref[t] *= F(c)
+            hist['ops'].append(f'scale@{rat(F(c))}@{igt(ig)}' if not (ig and any(not t for t in ig)) else None)
         elif kind == 'normalize':
             ig = r.sample(terms, r.randint(0, min(1, len(terms)))) if r.random() < .4 else []
             lin = [abs(ref[t]) for t in terms if len(t) == 1 and t not in ig]; hi = [abs(ref[t]) for t in terms if len(t) > 1 and t not in ig]
@@ -1125,24 +1131,28 @@ def history_case(ctx, r, lines, checks, directed=None):
                     R1, R2 = Ml * c, Mh * c2            # inv_scalar = max(1/c, 1/c2): a power of two, the division is exact
                     do(f'poly.normalize({float(R1)!r}, poly_range={float(R2)!r}' + (f', ignored_terms=[{", ".join(spell(t) for t in ig)}]' if ig else '') + ')')
                     k = min(c, c2)
+                    hist['ops'].append(f'norm@{rat(-R1)},{rat(R1)}@{rat(-R2)},{rat(R2)}@{igt(ig)}' if not (ig and any(not t for t in ig)) else None)
                 else:
                     R1 = max(Ml, Mh) * c
                     rng_ = repr(float(R1)) if r.random() < .6 else repr((-float(R1), float(R1)))
                     do(f'poly.normalize({rng_}' + (f', ignored_terms=[{", ".join(spell(t) for t in ig)}]' if ig else '') + ')')
                     k = c
+                    hist['ops'].append(f'norm@{rat(-R1)},{rat(R1)}@{rat(-R1)},{rat(R1)}@{igt(ig)}' if not (ig and any(not t for t in ig)) else None)
                 # definition: every non-ignored term is multiplied by the largest factor that fits the ranges
                 for t in terms:
                     if t not in ig: ref[t] *= k
         elif kind == 'set':
             t = r.choice(terms); b = F(r.randint(-16, 16), 4)
             do(f'poly[{spell(t)}] = {float(b)!r}'); ref[t] = b
+            hist['ops'].append(f'set@{tl(t)}@{rat(b)}')
         elif kind == 'iadd':
             t = r.choice(terms); b = F(r.randint(-8, 8), 4)
             do(f'poly[{spell(t)}] += {float(b)!r}'); ref[t] += b
+            hist['ops'].append(f'iadd@{tl(t)}@{rat(b)}')
         elif kind == 'update-existing':
             ts = r.sample(terms, r.randint(1, len(terms))); bs = [F(r.randint(-16, 16), 4) for _ in ts]
             do('poly.update({' + ', '.join(f'{tuple(sorted(t, key=repr))!r}: {float(b)!r}' for t, b in zip(ts, bs)) + '})')
-            for t, b in zip(ts, bs): ref[t] = b
+            for t, b in zip(ts, bs): ref[t] = b; hist['ops'].append(f'set@{tl(t)}@{rat(b)}')
         elif kind == 'setdefault-existing':
             t = r.choice(terms)
             do(f'poly.setdefault({tuple(t)!r}, 7.0)')
@@ -1166,14 +1176,18 @@ def history_case(ctx, r, lines, checks, directed=None):
                 else:
                     do(f'poly.setdefault({tuple(sorted(t, key=repr))!r}, {float(b)!r})')
                 ref[t] = b
+                hist['ops'].append(f'set@{tl(t)}@{rat(b)}')
         elif kind == 'del':
             t = r.choice(terms)
             do(f'del poly[{spell(t)}]'); del ref[t]
+            hist['ops'].append(f'del@{tl(t)}')
         elif kind == 'pop':
             t = r.choice(terms)
             do(f'poly.pop({tuple(t)!r})'); del ref[t]
+            hist['ops'].append(f'del@{tl(t)}')
         elif kind == 'popitem':
             do('popped = poly.popitem()'); del ref[env['popped'][0]]
+            hist['ops'].append('popitem')
         elif kind in ('relabel', 'relabel-swap'):
             vs = sorted({v for t in ref for v in t}, key=repr)
             if not vs or (kind == 'relabel-swap' and len(vs) < 2):
@@ -1188,6 +1202,7 @@ def history_case(ctx, r, lines, checks, directed=None):
                 do(f'poly.relabel_variables({mp!r})')
                 new = {frozenset(mp.get(v, v) for v in t): b for t, b in ref.items()}
                 ref.clear(); ref.update(new)
+                hist['ops'].append(None)                # relabel_variables is not in the object model: start again from the current terms
         state['last'] = kind; state['since'].append(kind)
         ctx.tick(f'history:mut:{kind}')
         try:
@@ -1196,6 +1211,28 @@ def history_case(ctx, r, lines, checks, directed=None):
             fail('BinaryPolynomial', f'state of the object after {kind}', f'{vt} {raw!r} after {stmts[2:]!r}: {e}', 'reads(poly, P)')
         except Exception as e:  # noqa
             fail('BinaryPolynomial', f'read accessor raises after {kind}', f'{vt} {raw!r} after {stmts[2:]!r}: {type(e).__name__}: {e}', 'reads(poly, P)')
+        if None in hist['ops']:
+            hist['base'], hist['ops'] = ptext(list(env['poly'].items())), []
+        # refusals: a key that is not there
+        if state['ok'] and r.random() < .12:
+            vs = sorted({v for t in ref for v in t}, key=repr) + ['zz']
+            t = frozenset(r.sample(vs, min(len(vs), r.randint(1, 3))) + ['zz'])
+            how = r.choice(['del', 'iadd', 'pop'])
+            stmt = {'del': f'del poly[{tuple(t)!r}]', 'iadd': f'poly[{tuple(t)!r}] += 1.0', 'pop': f'poly.pop({tuple(t)!r})'}[how]
+            try:
+                exec(stmt, env); raised = None
+            except Exception as e:  # noqa
+                raised = type(e).__name__
+            ctx.tick(f'history:refusal:{how}')
+            lines.append(f"hist {vt} {hist['base']} " + '!'.join(hist['ops'] + [('iadd@' + tl(t) + '@1') if how == 'iadd' else 'del@' + tl(t)]))
+            checks.append((f'BinaryPolynomial.{how} of an absent term vs Red.applyOp', how, 'ok ?' if raised is None else f'err {raised}', pre + '\n'.join(stmts) + '\n' + stmt + '\n', False))
+            if raised is None:
+                fail('BinaryPolynomial', f'{how} of an absent term does not raise', f'{vt} {raw!r} after {stmts[2:]!r}: {stmt}', f'try:\n    {stmt}\n    ok = False\nexcept KeyError:\n    ok = True\nassert ok')
+
+    def hist_line(why):
+        if hist['ops']:
+            lines.append(f"hist {vt} {hist['base']} " + '!'.join(hist['ops']))
+            checks.append(('BinaryPolynomial mutations vs Red.objectAfter', why, 'ok ' + ';'.join(sorted(term_text(t, fr(b)) for t, b in env['poly'].items())), pre + '\n'.join(stmts) + '\n', False))
 
     given = None
 
@@ -1216,6 +1253,7 @@ def history_case(ctx, r, lines, checks, directed=None):
                'same object reduced again without a mutation' if not [k for k in since if k != 'none'] else
                'same object reduced again after adding / deleting / relabelling terms')
         items_before = [(tuple(t), fr(b)) for t, b in env['poly'].items()]
+        hist_line('state before ' + op)
         site, check = {'reduce': ('reduce_binary_polynomial', 'red, cons = dimod.reduce_binary_polynomial(poly)\nexact_red(red, cons, P)'),
                        'mq': ('make_quadratic', f'bqm = dimod.make_quadratic(poly, {strength!r}, vt)\nexact_bqm(bqm, P)'),
                        'mq-vt': ('make_quadratic', f'bqm = dimod.make_quadratic(poly, {strength!r}, {"dimod." + vt if r.random() < .5 else repr(set(dom))})\nexact_bqm(bqm, P)'),
